@@ -12,9 +12,9 @@ reg("C01", "exploration", "bounded exhaustive program enumeration (unit catalogu
 reg("C02", "exploration", "marker enumeration: one unique token per syntactic position kind x flag/location/TMPDIR grid, byte scan of the binary", A,
     "A generated 3-package module (Go, assembly, headers, //line directives) in which every name is a unique marker; every non-exempt marker must be absent from the garbled binary under every grid cell, metadata readers must find nothing; vacuity guard: the markers are present in the plain build.",
     "substring scan; names hidden by compression/encoding would be missed", "DESIGN.md 4 C02")
-reg("C03", "exploration", "single-factor enumeration of the build environment around a cold baseline (CLI) + scripted-generator / global-seed exploration at the unit seam", A + " / " + B,
-    "Every single-factor deviation (second cold build, warm rebuild, dependency first, -p, source location, TMPDIR placement) of the baseline build must give the same sha256; ctrlflow.Obfuscate must not depend on the process-global math/rand (decided by seeding it with two values) nor on map order (sampled).",
-    "map iteration orders are sampled (no order-controlling instrumentation); the standard library is warm in all grid builds", "DESIGN.md 4 C03")
+reg("C03", "exploration", "single-factor enumeration of the build environment around a cold baseline (CLI) + enumeration of scripted map-iteration worlds (patched runtime) and global-seed deviation at the unit seam", A + " / " + B,
+    "Every single-factor deviation (second cold build, warm rebuild, dependency first, -p, source location, TMPDIR placement) of the baseline build must give the same sha256; ctrlflow.Obfuscate must not depend on the process-global math/rand (decided by seeding it with two values) nor on garble's map iteration order (N scripted, replayable worlds of a patched runtime).",
+    "N map worlds, not all orders; the standard library is warm in all grid builds", "DESIGN.md 4 C03")
 reg("C04", "exploration", "exhaustive call-chain enumeration (frame kinds^<=2/3 x terminal) through build + reverse, line-by-line differential against the -trimpath build", A,
     "All chains of <=2 (quick) / 3 (thorough) frames over 15 frame kinds ending in debug.Stack/panic/runtime.Caller; each garbled trace is reversed and every user frame's function and file:line compared with the regular build; text forms and exit status.",
     "assumes identical inlining in both builds; go/defer statement and multi-line call positions are listed known findings", "DESIGN.md 4 C04")
@@ -27,9 +27,9 @@ reg("C06", "exploration", "exhaustive enumeration of build/edit histories (all o
 reg("C07", "fault_enumeration", "exhaustive single/pair/subset fault injection (delete, empty, truncate) over every cache entry a build added, followed by rebuilds with and without edits", C,
     "Every cache file added by a warm build of a 3-level reflecting module x 3 fault kinds, all pairs of garble index entries, all whole-tree deletions, each followed by rebuild / rebuild after editing main / mid; the result must equal the cold reference.",
     "faults are applied between builds", "DESIGN.md 4 C07")
-reg("C08", "exploration", "exhaustive enumeration declaring package x reflecting package x flow path (+ type chains) through the CLI; exhaustive small-scope comparison of the injected replacer with strings.NewReplacer", A + " / " + F,
+reg("C08", "exploration", "exhaustive enumeration declaring package x reflecting package x flow path (+ type chains) through the CLI, repeated in scripted map-iteration worlds; exhaustive small-scope comparison of the injected replacer with strings.NewReplacer", A + " / " + F,
     "A nested struct declared in {main, dep, dep of dep} reflected in {main, dep} through 19 flow paths, plus type-algebra chains with reflective use sites: reflection output must equal the plain build; the injected replacer equals strings.NewReplacer on all <=3-pair lists over prefix-sharing keys x inputs up to length 6/7.",
-    "one map iteration order per build is observed", "DESIGN.md 4 C08")
+    "N scripted map worlds, not all orders", "DESIGN.md 4 C08, 9.2")
 reg("C09", "exploration", "marker enumeration: unique literal per (syntactic position, length) x flag/seed/-X grid, byte scan of the binary", A,
     "A unique high-entropy literal of each window length in each of ~32 syntactic positions; none may occur in the -literals binary, nor the seed; exempt positions are recorded only; output must equal the plain build.",
     "whole-literal substring scan", "DESIGN.md 4 C09")
